@@ -72,21 +72,25 @@ lemma_get_is_atomic.note = "cached_property.__get__ is a synchronous def contain
 
 
 def _between_test_and_set(relpath, qualname):
-    """no suspension point between `if self._stream_consumed: raise` and `self._stream_consumed = True`"""
+    """no suspension point between `if self._stream_consumed: raise` and the first later `self._stream_consumed = True`
+    (wherever in the function that assignment is: source order stands in for control flow, which is exact for the
+    straight-line / loop-entry shapes at hand and conservative otherwise)"""
     fdef = source.find_def(relpath, qualname)
-    body = fdef.body
-    idx_test = idx_set = None
-    for i, s in enumerate(body):
-        if isinstance(s, ast.If) and "_stream_consumed" in ast.unparse(s.test) and any(isinstance(x, ast.Raise) for x in s.body):
-            idx_test = i
-        if isinstance(s, ast.Assign) and ast.unparse(s.targets[0]) == "self._stream_consumed" and idx_test is not None and idx_set is None:
-            idx_set = i
-    if idx_test is None or idx_set is None or idx_set <= idx_test:
-        return False
-    for s in body[idx_test:idx_set + 1]:
-        for n in ast.walk(s):
-            if isinstance(n, (ast.Await, ast.Yield, ast.YieldFrom)):
-                return False
+    pos = lambda n: (n.lineno, n.col_offset)      # noqa
+    tests = [n for n in ast.walk(fdef) if isinstance(n, ast.If) and "_stream_consumed" in ast.unparse(n.test)
+             and any(isinstance(x, ast.Raise) for x in n.body)]
+    if not tests:
+        raise Unsupported("%s: no `if self._stream_consumed: raise` found (syntactic lemma not applicable)" % qualname)
+    t = min(tests, key=pos)
+    t_end = (t.end_lineno, t.end_col_offset)
+    sets = [n for n in ast.walk(fdef) if isinstance(n, ast.Assign) and ast.unparse(n.targets[0]) == "self._stream_consumed"
+            and pos(n) > t_end]
+    if not sets:
+        raise Unsupported("%s: no `self._stream_consumed = ...` after the test (syntactic lemma not applicable)" % qualname)
+    a = min(sets, key=pos)
+    for n in ast.walk(fdef):
+        if isinstance(n, (ast.Await, ast.Yield, ast.YieldFrom)) and t_end < pos(n) < pos(a):
+            return False
     return True
 
 
@@ -283,6 +287,25 @@ W_STREAM = Contract(
     canaries={"never_reads": "has(self.__dict__, 'body')"},
     assumptions=["A-wsgi-1", "A-py-1"],
 )
+
+
+def _wsgi_stream_m2i(m):
+    """a fresh request (nothing cached, not consumed) with the model's body and chunk size; other models do not replay"""
+    if m.get("self.__dict__.has['body']") or m.get("self._stream_consumed"):
+        return None
+    return {"iface": "wsgi", "body": str(m.get("wbody", "")), "chunk_size": max(1, int(m.get("chunk_size", 1) or 1))}
+
+
+def _asgi_stream_m2i(m):
+    if m.get("self.__dict__.has['body']") or m.get("self._stream_consumed"):
+        return None
+    n = max(0, min(int(m.get("msgs.len", 0) or 0), 8))
+    msgs = [[m.get("msgs[%d][0]" % i, "http.request"), str(m.get("msgs[%d][1]" % i, "")), bool(m.get("msgs[%d][2]" % i, False))] for i in range(n)]
+    return {"iface": "asgi", "msgs": msgs}
+
+
+A_STREAM.model_to_inputs, A_STREAM.native = _asgi_stream_m2i, ("c10", "replay_stream")
+W_STREAM.model_to_inputs, W_STREAM.native = _wsgi_stream_m2i, ("c10", "replay_stream")
 
 
 def register(reg):
